@@ -35,6 +35,13 @@ func main() {
 			os.Exit(2)
 		}
 		fmt.Printf("loaded %d packages, %d functions\n", len(p.Pkgs), p.NumFuncs)
+	case "accessors":
+		P, err := Load("/repo", nil)
+		if err != nil {
+			fmt.Println(err)
+			os.Exit(2)
+		}
+		debugAccessors(P)
 	case "check":
 		fs := flag.NewFlagSet("check", flag.ExitOnError)
 		prop := fs.String("property", "", "property id (or 'all')")
